@@ -32,7 +32,7 @@ CHECKS = {
                 text="every OrderedSet method and operator, unique_list and IdentitySet (IdentitySet operand) is proved from the pure-Python source against 'set semantics with first-insertion order' (views via the spec functions addall/filt), representation invariants and frames included; the two known defects are reported as KNOWN-FINDING with every input outside their class proved. Bounded complement: pure and compiled builds against reference models.",
                 note="argument kinds are a case split (list with duplicates / set / IdentitySet); inductive lemmas filt_cong, addall_cat, filt_snoc assumed (Lean status in lemmas/); immutabledict/LRUCache/merge_lists_w_ordering are bounded only; the .so cannot be rebuilt here"),
     "C10": dict(level="proof", technique=PROOF_TECH, design="DESIGN.md §5 C10",
-                text="BufferedRowCursorFetchStrategy._buffer_rows / fetchone / fetchmany / fetchall are proved against the view total = buffer ++ rows left in the cursor: each call returns a prefix of total and leaves exactly the rest, _buffer_rows never loses a row and is only called on an empty buffer, fetchmany(0) is never sent to the driver. Bounded complement: all Result API operation sequences against a list model.",
+                text="the three cursor fetch strategies are proved: CursorFetchStrategy (rows pass through from the DBAPI cursor unchanged, in order), FullyBufferedCursorFetchStrategy (fetchone/fetchmany/fetchall deliver a prefix of the buffer and leave exactly the rest; an empty batch soft-closes) and BufferedRowCursorFetchStrategy: _buffer_rows / fetchone / fetchmany / fetchall are proved against the view total = buffer ++ rows left in the cursor: each call returns a prefix of total and leaves exactly the rest, _buffer_rows never loses a row and is only called on an empty buffer, fetchmany(0) is never sent to the driver. Bounded complement: all Result API operation sequences against a list model.",
                 note="assumed PEP-249 cursor contract; handle_exception NoReturn; _soft_close clears the buffer; the Result API classes are bounded only"),
     "C21": dict(level="proof", technique=PROOF_TECH, design="DESIGN.md §5 C21",
                 text="SQLCompiler._truncated_identifier (length <= label_length, memo idempotent, earlier names keep their rendering, counters only grow), IdentifierPreparer._truncate_and_render_maxlen_name (length <= max_) and truncate_and_render_index/constraint_name (the kind-specific limit applies when the dialect defines it) are proved for all lengths with strings modelled by length. Bounded complement: naming conventions x dialect families x limits.",
